@@ -35,6 +35,9 @@ fn main() {
         runner::cleanup_scratch();
         std::process::exit(code);
     }
+    if property == "C36" {
+        std::process::exit(vmc::c36::run(&tier, &mut out));
+    }
     let Some(check) = specs::cluster_check(&property, &tier) else {
         let _ = writeln!(out, "MACHINERY-ERROR unknown property {property} for clustermc");
         std::process::exit(2);
